@@ -1024,3 +1024,155 @@ func hangDumpPath() string {
 	}
 	return os.TempDir() + "/verif-hang-dump.txt"
 }
+
+// ---- blocking pops (C18) -----------------------------------------------------------------------
+
+func scBPop(n *nodis.Nodis, r *rand.Rand, rounds int) string {
+	addr, err := serveOn(n)
+	if err != nil {
+		return "FAIL " + err.Error()
+	}
+	tick := func() { atomic.AddUint64(&progress, 1) }
+	// (a) immediate: first key in argument order; head for BLPOP, tail for BRPOP
+	n.RPush("ba", []byte("a1"), []byte("a2"), []byte("a3"))
+	n.RPush("bb", []byte("b1"), []byte("b2"))
+	if k, v := n.BLPop(time.Second, "nokey", "ba", "bb"); k != "ba" || string(v) != "a1" {
+		return fmt.Sprintf("FAIL BLPOP nokey ba bb returned %q %q, not ba a1", k, v)
+	}
+	if k, v := n.BRPop(time.Second, "bb", "ba"); k != "bb" || string(v) != "b2" {
+		return fmt.Sprintf("FAIL BRPOP bb ba returned %q %q, not bb b2", k, v)
+	}
+	n.Del("ba", "bb")
+	// (b) no push: null, no earlier than the timeout (fractions honoured, over TCP too)
+	t0 := time.Now()
+	if k, _ := n.BLPop(150*time.Millisecond, "empty1", "empty2"); k != "" {
+		return "FAIL BLPOP on empty keys returned a key"
+	}
+	if d := time.Since(t0); d < 150*time.Millisecond || d > 2*time.Second {
+		return fmt.Sprintf("FAIL BLPOP with a timeout of 150 ms and no push returned after %v", d)
+	}
+	tick()
+	c, err := dial(addr)
+	if err != nil {
+		return "FAIL dial"
+	}
+	defer c.c.Close()
+	t0 = time.Now()
+	g, err := c.do("BRPOP", "empty1", "0.25")
+	if err != nil || len(g) != 1 || g[0].kind != 'n' {
+		return fmt.Sprintf("FAIL BRPOP empty1 0.25 over TCP replied %v %v, not a null array", g, err)
+	}
+	if d := time.Since(t0); d < 250*time.Millisecond || d > 2*time.Second {
+		return fmt.Sprintf("FAIL BRPOP with a timeout of 0.25 s and no push returned after %v", d)
+	}
+	tick()
+	// (c) timeout 0 waits until a push arrives; BRPOP woken by RPUSH k x y gets the tail
+	for round := 0; round < rounds; round++ {
+		key := fmt.Sprintf("bz%d", round)
+		got := make(chan string, 1)
+		go func() {
+			_, v := n.BRPop(0, key)
+			got <- string(v)
+		}()
+		wait := time.Duration(20+r.Intn(60)) * time.Millisecond
+		select {
+		case v := <-got:
+			return fmt.Sprintf("FAIL BRPOP with timeout 0 returned %q before anything was pushed", v)
+		case <-time.After(wait):
+		}
+		pushed := time.Now()
+		n.RPush(key, []byte("x"), []byte("y"))
+		select {
+		case v := <-got:
+			if v != "y" {
+				return fmt.Sprintf("FAIL a waiting BRPOP woken by RPUSH k x y returned %q, not the tail y", v)
+			}
+			if d := time.Since(pushed); d > time.Second {
+				return fmt.Sprintf("FAIL a waiting BRPOP got its element %v after the push", d)
+			}
+		case <-time.After(5 * time.Second):
+			return "FAIL a BRPOP with timeout 0 was still waiting 5 s after an element had been pushed to its key (missed wake-up)"
+		}
+		n.Del(key)
+		tick()
+	}
+	// (d) hand-off: every pushed element goes to exactly one waiter; pushes never block or fail
+	for round := 0; round < rounds; round++ {
+		keys := []string{fmt.Sprintf("bh%da", round), fmt.Sprintf("bh%db", round)}
+		const waiters, total = 5, 24
+		var mu sync.Mutex
+		seen := map[string]int{}
+		var popped int64
+		var slowPush, pushErr atomic.Value
+		var wg sync.WaitGroup
+		deadline := time.Now().Add(8 * time.Second)
+		for w := 0; w < waiters; w++ {
+			wg.Add(1)
+			go func(w int) {
+				defer wg.Done()
+				for atomic.LoadInt64(&popped) < total && time.Now().Before(deadline) {
+					var k string
+					var v []byte
+					// short timeouts: waiters keep arriving and leaving while pushes happen
+					if w%2 == 0 {
+						k, v = n.BLPop(time.Duration(5+w*7)*time.Millisecond, keys...)
+					} else {
+						k, v = n.BRPop(time.Duration(5+w*7)*time.Millisecond, keys[1], keys[0])
+					}
+					tick()
+					if k == "" {
+						continue
+					}
+					mu.Lock()
+					seen[string(v)]++
+					mu.Unlock()
+					atomic.AddInt64(&popped, 1)
+				}
+			}(w)
+		}
+		pc, err := dial(addr)
+		if err != nil {
+			return "FAIL dial"
+		}
+		for i := 0; i < total; i++ {
+			t0 := time.Now()
+			if i%3 == 0 {
+				g, err := pc.do("RPUSH", keys[i%2], fmt.Sprintf("e%d", i))
+				if err != nil || len(g) != 1 || g[0].kind != ':' {
+					pushErr.Store(fmt.Sprintf("RPUSH replied %v %v while clients were blocked on the key", g, err))
+				}
+			} else {
+				n.LPush(keys[i%2], []byte(fmt.Sprintf("e%d", i)))
+			}
+			if d := time.Since(t0); d > time.Second {
+				slowPush.Store(fmt.Sprintf("a push took %v while clients were blocked on the key", d))
+			}
+			if i%4 == 0 {
+				time.Sleep(time.Duration(r.Intn(8)) * time.Millisecond)
+			}
+		}
+		pc.c.Close()
+		wg.Wait()
+		if s := pushErr.Load(); s != nil {
+			return fmt.Sprintf("FAIL %s (round %d)", s, round)
+		}
+		if s := slowPush.Load(); s != nil {
+			return fmt.Sprintf("FAIL %s (round %d)", s, round)
+		}
+		rest := len(n.LRange(keys[0], 0, -1)) + len(n.LRange(keys[1], 0, -1))
+		for e, cnt := range seen {
+			if cnt != 1 {
+				return fmt.Sprintf("FAIL element %s was handed to %d blocked clients (round %d)", e, cnt, round)
+			}
+		}
+		if len(seen)+rest != total {
+			return fmt.Sprintf("FAIL %d elements pushed, %d popped by blocked clients, %d left in the lists (round %d)", total, len(seen), rest, round)
+		}
+		if rest != 0 {
+			return fmt.Sprintf("FAIL %d pushed elements were still in the lists after 8 s although %d clients kept blocking on the keys (round %d)", rest, waiters, round)
+		}
+	}
+	return fmt.Sprintf("ok rounds=%d", rounds)
+}
+
+func init() { scenarios["bpop"] = scBPop }
